@@ -896,6 +896,17 @@ fn gen_wrapped(r: &mut Rng, tier: Tier, out: &mut Out) {
 		b.extend([b'I', 0, 15]);
 		hexop(out, "anno", &b);
 	}
+	if tier == Tier::Thorough {
+		// maximal code arrays: branch offsets that leave 0..65535 on either side (must be errors, not wrap-arounds)
+		for (first, off) in [(0xa7u8, -2i16), (0xa7, -1), (0x99, -32768), (0xa7, 0)] {
+			let mut c = vec![first]; c.extend(off.to_be_bytes());
+			c.extend(std::iter::repeat(0u8).take(65535 - 4)); c.push(0xb1);
+			hexop(out, "code", &code_body(&c));
+			let mut c: Vec<u8> = std::iter::repeat(0u8).take(65535 - 3).collect();
+			c.push(first); c.extend((if off == 0 { 3i16 } else { off.checked_neg().unwrap_or(i16::MAX) }).to_be_bytes());
+			hexop(out, "code", &code_body(&c));
+		}
+	}
 	// acyclic bootstrap-argument structures (cycles are the recorded finding, not part of the default stream)
 	for _ in 0..rounds / 10 {
 		let k = r.range(1, 6);
@@ -1155,6 +1166,20 @@ fn fixed_and_witness_lines(out: &mut Out) {
 	let mut ts = vec![0xaa, 0, 0, 0];
 	ts.extend(0i32.to_be_bytes()); ts.extend(i32::MIN.to_be_bytes()); ts.extend(i32::MAX.to_be_bytes());
 	hexop(out, "code", &code_body(&ts));
+	// the catchable open sites, one deterministic line each (the aborting ones - `dyn (0)`, `anno-nest 50000` - are
+	// replayed as known findings only)
+	hexop(out, "code", &[0, 1, 0, 1, 0, 0, 0, 2, 0, 177, 0, 0, 0, 1, 0, 26, 0, 0, 0, 12, 0, 1, 0, 1, 255, 255, 0, 1, 0, 10, 0, 0]); // S1
+	out.op("labels-full", &[Sexp::nat(65534)]);                                                                                    // S2
+	out.op("labels-full", &[Sexp::nat(65533)]);
+	hexop(out, "code", &[0, 1, 0, 1, 0, 0, 0, 1, 177, 0, 0, 0, 1, 0, 24, 0, 0, 0, 6, 0, 2, 0, 251, 255, 255]);                    // S3
+	out.op("oracle-alloc", &[Sexp::tag("code"), Sexp::bytes(&[0, 1, 0, 1, 0, 0, 0, 1, 177, 0, 0, 0, 1, 0, 32, 255, 255, 255, 255])]); // S6
+	let mut d: Vec<u32> = vec![40]; d.extend(std::iter::repeat(68u32).take(128)); d.extend([41, 86]);
+	out.op("argsize", &[Sexp::cps(&d)]);                                                                                           // S7
+	let mut d: Vec<u32> = vec![40]; d.extend(std::iter::repeat(73u32).take(255)); d.extend([41, 86]);
+	out.op("argsize", &[Sexp::cps(&d)]);                                                                                           // S8
+	out.op("writer-grow", &[Sexp::nat(65530), Sexp::nat(130)]);                                                                    // S9
+	out.op("writer-grow", &[Sexp::nat(65530), Sexp::nat(100)]);
+	out.op("writer-grow", &[Sexp::nat(65525), Sexp::nat(130)]);
 }
 
 fn gen(r: &mut Rng, tier: Tier, out: &mut Out) {
